@@ -267,7 +267,21 @@ func cookieLayout(lay, cookieName, sealed string, r *rand.Rand) ([]HdrLine, []Se
 		}
 		return SentCookie{Pair: pair, Cls: "other", Name: n, Val: v}
 	}
-	sess := func() SentCookie { return SentCookie{Pair: cookieName + "=" + sealed, Cls: "sess"} }
+	// spellings of the session pair that net/http reads as the same cookie (name trimmed, value unquoted)
+	sess := func() SentCookie {
+		pair := cookieName + "=" + sealed
+		switch r.Intn(10) {
+		case 0:
+			pair = cookieName + " =" + sealed
+		case 1:
+			pair = cookieName + "\t=" + sealed
+		case 2:
+			pair = cookieName + "=\"" + sealed + "\""
+		case 3:
+			pair = cookieName + "  =\"" + sealed + "\""
+		}
+		return SentCookie{Pair: pair, Cls: "sess"}
+	}
 	bad := func() SentCookie {
 		v := pick(r, "garbage", sealed[:len(sealed)-3], "", strings.ToUpper(sealed))
 		return SentCookie{Pair: cookieName + "=" + v, Cls: "bad"}
@@ -370,12 +384,19 @@ func body(q Q, r *rand.Rand, bigLen int) []byte {
 	case "small":
 		return []byte(pick(r, `{"a":1}`, "k=v&x=y", "hello\nworld\n", "x", "line1\r\nline2", "0\r\n\r\n", "\n"))
 	case "binary":
-		b := make([]byte, 64+r.Intn(4000))
+		n := 64 + r.Intn(4000)
+		if bigLen < 0 {
+			n = -bigLen // burst leg: every binary body is large, so that requests spend long enough being hashed to overlap
+		}
+		b := make([]byte, n)
 		r.Read(b)
 		b[0], b[1], b[2] = 0, '\r', '\n'
 		b[len(b)-1] = 0xff
 		return b
 	case "big":
+		if bigLen < 0 {
+			bigLen = -bigLen
+		}
 		b := make([]byte, bigLen)
 		r.Read(b)
 		return b
